@@ -47,4 +47,23 @@ Section RootDist.
 
   (* crop.go:633-636 — the dead-root N goes to the fast and the slow pool of every rooted layer by root share *)
   Definition dead_root_to_pool (wumm share pool : T) : T := pool + dec 5 1 * wumm * share.
+  (* ------------------------------------------------------------------ *)
+  (* what the organic pools receive from the crop on an ordinary growth day (crop.go:492-497 dead leaves and stems of the organs
+     2 and 3 to the top layer, 80 % fast / 20 % slow of 70 % of their N; crop.go:657-661 dead roots by root share) *)
+  Definition leaf_to_pools (dgorgs : list T) (gehalt dt nfos0 naos0 : T) : T * T :=
+    fold_left (fun fa d => (fst fa + dec 56 2 * d * gehalt * dt, snd fa + dec 14 2 * d * gehalt * dt)) dgorgs (nfos0, naos0).
+
+  Fixpoint roots_to_pool (wumm : T) (shares pool : list T) : list T :=
+    match shares, pool with
+    | s :: sr, p :: pr => dead_root_to_pool wumm s p :: roots_to_pool wumm sr pr
+    | _, _ => pool
+    end.
+
+  Definition pools_after (dgorgs : list T) (gehalt dt wumm : T) (shares nfos naos : list T) : list T * list T :=
+    match nfos, naos with
+    | f0 :: fr, a0 :: ar =>
+        let '(f0', a0') := leaf_to_pools dgorgs gehalt dt f0 a0 in
+        (roots_to_pool wumm shares (f0' :: fr), roots_to_pool wumm shares (a0' :: ar))
+    | _, _ => (nfos, naos)
+    end.
 End RootDist.
